@@ -114,7 +114,7 @@ class C06(fw.Prop):
             for _ in range(rng.randint(4, 25)):
                 r = rng.random()
                 if r < 0.45:
-                    cur = cur + rng.randint(1, 5)
+                    cur = min(2 ** 32 - 1, cur + rng.randint(1, 5))
                     seq.append(cur)
                 elif r < 0.6:
                     seq.append(cur)                                     # equal to the last accepted
@@ -123,7 +123,7 @@ class C06(fw.Prop):
                 elif r < 0.9:
                     seq.append(rng.choice(seq) if seq else cur)         # duplicate of any earlier one
                 else:
-                    cur = 2 ** 32 - 1 if rng.random() < 0.3 else cur + rng.randint(100, 10 ** 6)
+                    cur = 2 ** 32 - 1 if rng.random() < 0.3 else min(2 ** 32 - 1, cur + rng.randint(100, 10 ** 6))
                     seq.append(cur)
             ops = []
             for ic in seq:
